@@ -597,4 +597,150 @@ theorem phi_init (s mid now0 : Nat) (sess : List Sess) (h : ∀ se ∈ sess, Ses
   show 0 + 0 + midC mid (parOf sess s).delayq = 0
   rw [this]; rfl
 
+/-! ### after the due loop nothing is due (the loop has fuel for every due node, delayed messages included) -/
+
+/-- number of queued nodes that are due -/
+def dueC (par : Nat → Sess) (l : L) : Nat := dc l.now (absP (mxOf par) l.q.base l.q.nodes)
+
+theorem dueC_enq {par : Nat → Sess} (l : L) (n : Node) (d : Nat) (hb : l.q.base ≤ l.now) (hd : 0 < d) :
+    dueC par { l with q := enqueue l.q l.now d n } = dueC par l := by
+  simp only [dueC]
+  rw [absP_enqueue _ _ _ _ _ (Or.inr hb), dc_pinsert]
+  have : ¬ (l.now + d ≤ l.now) := by omega
+  simp [this]
+
+theorem dueC_congr {par : Nat → Sess} {l l' : L} (h1 : l'.now = l.now) (h2 : l'.q = l.q) : dueC par l' = dueC par l := by
+  simp only [dueC, h1, h2]
+
+theorem drain_dueC {par : Nat → Sess} {P : Nat → Nat → Nat → Prop} (hp : GPar par) :
+    ∀ (fuel : Nat) (l : L) (s' : Nat), FInv False par P l → dueC par (drain fuel l s') = dueC par l := by
+  intro fuel
+  induction fuel with
+  | zero => intro l s' _; rfl
+  | succ f ih =>
+    intro l s' hi
+    obtain ⟨ca, dq, hg, hle, hdq⟩ := hi.sess s'
+    obtain ⟨hest, hopen, hns, h256⟩ := hp s'
+    cases dq with
+    | nil =>
+      have : drain (f + 1) l s' = l := by simp [drain, hg]
+      rw [this]
+    | cons n rest =>
+      obtain ⟨hcon, htok, hT, hT32, hcnt, h64, hP⟩ := hdq n (by simp)
+      by_cases hgate : ca ≥ (par s').nstart
+      · have : drain (f + 1) l s' = l := by simp [drain, hg, hest, hcon, hgate]
+        rw [this]
+      · rw [drain_succ hp f l s' ca n rest hg hgate (hdq n (by simp)) hi]
+        have hi2 : FInv False par P ((l.setS s' { par s' with conActive := (ca + 1) % 256, delayq := rest }).emit
+            (.tx l.now s' n.mid 0 true)) := by
+          refine ⟨hi.base, gsess_congr rfl (gsess_setS hi.sess s' _ rest ?_ (fun x hx => hdq x (by simp [hx]))),
+            hi.nodes, fun p hp' => pendOk_mono _ (hi.pend p hp'), ?_⟩
+          · have : (ca + 1) % 256 ≤ ca + 1 := Nat.mod_le _ _
+            omega
+          · exact outOk_cons_tx _ _ _ _ hi.outs (fun h => h.elim)
+        have hn' : NodeOk par P { n with sess := s' } := ⟨hcon, htok, hT, by simp [hcnt], h64, hP⟩
+        have hi3 := (finv_enq_fresh _ { n with sess := s' } hi2 (futF _) hn' hcnt (by simp [L.emit])).1
+        exact (ih _ s' hi3).trans (dueC_enq (par := par)
+          ((l.setS s' { par s' with conActive := (ca + 1) % 256, delayq := rest }).emit
+            (.tx l.now s' n.mid 0 true)) { n with sess := s' } n.timeout hi.base hT)
+
+theorem release_dueC {par : Nat → Sess} {P : Nat → Nat → Nat → Prop} (hp : GPar par) (l : L) (s' : Nat)
+    (hi : FInv False par P l) : dueC par (release l s') = dueC par l := by
+  obtain ⟨ca, dq, hg, hle, hdq⟩ := hi.sess s'
+  have hconn : ∀ l1 : L, FInv False par P l1 → dueC par (connected l1 s') = dueC par l1 := by
+    intro l1 hi1
+    obtain ⟨ca1, dq1, hg1, hle1, hdq1⟩ := hi1.sess s'
+    have e : ({ (l1.getS s') with est := true } : Sess) = { par s' with conActive := ca1, delayq := dq1 } := by
+      rw [hg1]
+      have := (hp s').1
+      cases hps : par s'
+      rw [hps] at this
+      simp_all
+    unfold connected
+    simp only []
+    rw [e]
+    have hi2 : FInv False par P (l1.setS s' { par s' with conActive := ca1, delayq := dq1 }) :=
+      ⟨hi1.base, gsess_setS hi1.sess s' ca1 dq1 hle1 hdq1, hi1.nodes, hi1.pend, hi1.outs⟩
+    exact (drain_dueC hp _ _ s' hi2).trans rfl
+  unfold release
+  simp only []
+  split
+  · rfl
+  · have h1 : FInv False par P (l.setS s' { (l.getS s') with conActive := (l.getS s').conActive - 1 }) := by
+      rw [hg]
+      exact ⟨hi.base, gsess_setS hi.sess s' (ca - 1) dq (by omega) hdq, hi.nodes, hi.pend, hi.outs⟩
+    split
+    · rw [hconn _ h1]; rfl
+    · rfl
+
+theorem retransmit_dueC {par : Nat → Sess} {P : Nat → Nat → Nat → Prop} (hp : GPar par) (l : L) (n : Node)
+    (hi : FInv False par P l) (hn : NodeOk par P n) : dueC par (retransmit l n) = dueC par l := by
+  obtain ⟨hcon, htok, hT, hcnt, h64, hP⟩ := hn
+  obtain ⟨ca, dq, hg, hle, hdq⟩ := hi.sess n.sess
+  obtain ⟨hest, hopen, hns, h256⟩ := hp n.sess
+  have hnowR := retransmit_now l n
+  by_cases hc : n.cnt < (par n.sess).maxRtx
+  · have hle2 : n.timeout * 2 ^ (n.cnt + 1) ≤ n.timeout * 2 ^ (par n.sess).maxRtx :=
+      Nat.mul_le_mul_left _ (Nat.pow_le_pow_right (by decide) hc)
+    have hroom : ca - 1 < (par n.sess).nstart := by omega
+    have hres := retransmit_resend l n (by rw [hg]; exact hc) (by rw [hg]; exact hest) (by rw [hg]; exact hroom)
+      (by omega) (by omega) (Or.inr hi.base)
+    have hpos : 0 < n.timeout * 2 ^ (n.cnt + 1) := Nat.mul_pos hT (Nat.two_pow_pos _)
+    rw [← dueC_enq (par := par) l { n with cnt := n.cnt + 1 } _ hi.base hpos]
+    exact dueC_congr hnowR hres.2.2
+  · have hc' : ¬ n.cnt < (l.getS n.sess).maxRtx := by rw [hg]; exact hc
+    have heq : retransmit l n = (release l n.sess).emit (.nack (release l n.sess).now n.sess .retries n.mid true) := by
+      unfold retransmit
+      simp [hc', hcon]
+    rw [heq, ← release_dueC hp l n.sess hi]
+    rfl
+
+theorem dueLoop_nothingDue {par : Nat → Sess} {P : Nat → Nat → Nat → Prop} (hp : GPar par) :
+    ∀ (f : Nat) (l : L), FInv False par P l → dueC par l ≤ f → NothingDue (dueLoop f l) := by
+  intro f
+  induction f with
+  | zero =>
+    intro l hi h0
+    show NothingDue l
+    rw [nothingDue_iff]
+    intro h r hn
+    simp only [dueC, hn, absP, dc] at h0
+    by_cases hd : l.q.base + h.t ≤ l.now
+    · simp [hd] at h0
+    · omega
+  | succ f ih =>
+    intro l hi hf
+    cases hn : l.q.nodes with
+    | nil =>
+      have hnd : NothingDue l := by rw [nothingDue_iff]; intro h r hh; rw [hn] at hh; cases hh
+      rw [dueLoop_not_due _ l hnd]; exact hnd
+    | cons hd r =>
+      by_cases hdue : l.q.base + hd.t ≤ l.now
+      · obtain ⟨rest, hpop, _, hloop⟩ := dueLoop_due f l hd r hn hi.base hdue
+        rw [hloop]
+        have hab := absP_popNext (mxOf par) l.q.base l.q.nodes hd rest hpop
+        have hall := all_popNext (nodeOk_tfree par P) l.q.nodes hd rest hpop hi.nodes
+        have hi1 : FInv False par P { l with q := { l.q with nodes := rest } } :=
+          ⟨hi.base, hi.sess, hall.2, fun p hp' => hi.pend p (by rw [hab]; exact List.mem_cons_of_mem _ hp'), hi.outs⟩
+        have hi2 := (retransmit_finv hp _ hd hi1 (futF _) hall.1 (fun h => h.elim)).1
+        apply ih _ hi2
+        rw [retransmit_dueC hp _ hd hi1 hall.1]
+        have : dueC par l = 1 + dueC par ({ l with q := { l.q with nodes := rest } } : L) := by
+          simp only [dueC]
+          rw [hab]
+          simp [dc, hdue]
+        omega
+      · have hnd : NothingDue l := by
+          rw [nothingDue_iff]; intro h r' hh; rw [hn] at hh; cases hh; omega
+        rw [dueLoop_not_due _ l hnd]; exact hnd
+
+theorem prepareCore_nothingDue {par : Nat → Sess} {P : Nat → Nat → Nat → Prop} (hp : GPar par) (l : L)
+    (hi : FInv False par P l) : NothingDue (prepareCore l).1 := by
+  rw [prepareCore_fst]
+  apply dueLoop_nothingDue hp _ l hi
+  have h1 := dc_le_length l.now (absP (mxOf par) l.q.base l.q.nodes)
+  rw [absP_length] at h1
+  unfold dueC dueFuel
+  omega
+
 end Coap.Sched
